@@ -210,6 +210,10 @@ class BuildDirs:
                     self._error_created_dirs.add(norm_cased_dir)
                     self._maybe_removed_dirs.add(norm_cased_dir)
                     self._removed_dirs.discard(norm_cased_dir)
+
+                    # The directory might be where an output file from the
+                    # previous build used to be
+                    self._removed_files.discard(norm_cased_dir)
             self._exists_dirs.clear()
 
     def error_building_file(self, filename):
